@@ -332,14 +332,19 @@ class LinearModel:
         m = core.fresh_real("lin_slope")
         c = core.fresh_real("lin_icpt")
         out = _ModelResult()
-        out.params = {"slope": m, "intercept": c}
+        P = Parameters()
+        P.add("slope", value=m)
+        P.add("intercept", value=c)
+        out.params = P
+        out.best_values = {"slope": m, "intercept": c}
         out.best_fit = symnp.asarray(x) * m + c
         out.slope, out.intercept = m, c
         return out
 
     def eval(self, params=None, x=None, **k):
         from . import symnp
-        return symnp.asarray(x) * params["slope"] + params["intercept"]
+        val = lambda p: p.value if isinstance(p, Parameter) else p
+        return symnp.asarray(x) * val(params["slope"]) + val(params["intercept"])
 
 
 models = types.ModuleType("lmfit.models")
